@@ -993,6 +993,8 @@ def coq_term(case, obs):
             parts.append(f"check_col pval_eqb idx ({raw}) {obs_cells}")
     if not parts:
         return None
+    if obs.get("used", {}).get("_args"):
+        parts.append(M.check_config_term(obs["used"]["_args"]))     # Dataset.__init__ model on this dataset's arguments
     return f"(let idx := {M.labels_of(case)} in " + " && ".join(parts) + ")"
 
 
